@@ -101,12 +101,12 @@ inductive Refusal where
   | sigmaShape                  -- function estimator: noise array incompatible with the factor
   deriving Repr, DecidableEq
 
-inductive PredClass where
+inductive PredFamily where
   | full | landmarks | landmarksCholesky
   deriving Repr, DecidableEq
 
 inductive Outcome where
-  | ok (gp : GPType) (rows cols : Nat) (cls : PredClass)
+  | ok (gp : GPType) (rows cols : Nat) (cls : PredFamily)
   | refused (why : Refusal)
   | internal
   deriving Repr, DecidableEq
@@ -277,7 +277,7 @@ def computeL (gp : GPType) (n : Nat) (rank : RankV) (landmarks : Option Nat) (ke
     `FULL_NYSTROEM` they pass `landmarks=None` (fix e3730dc), for `SPARSE_NYSTROEM` they withhold the
     latent vector (fix 8089bef); otherwise by `landmarks is None`, else by the coincidence
     `pre_transformation.shape[0] == landmarks.shape[0]`. -/
-def predictorClass (gp : GPType) (landmarks : Option Nat) (cols : Nat) : PredClass :=
+def predictorClass (gp : GPType) (landmarks : Option Nat) (cols : Nat) : PredFamily :=
   if gp = .full ∨ gp = .fullNystroem then .full
   else
     match landmarks with
@@ -287,7 +287,7 @@ def predictorClass (gp : GPType) (landmarks : Option Nat) (cols : Nat) : PredCla
       else if cols = m then .landmarksCholesky else .landmarks
 
 /-- The predictor family that belongs to a GP type (the documented correspondence). -/
-def GPType.family : GPType → PredClass
+def GPType.family : GPType → PredFamily
   | .full => .full
   | .fullNystroem => .full
   | .sparseCholesky => .landmarksCholesky
